@@ -803,7 +803,7 @@ Definition ox_stop : istop := mkIStop [] 0%Z [] None 0%Z [].
 Definition ox_inp : input :=
   mkInput [] [ox_stop; ox_stop; ox_stop] [dflt_vehicle]
           [mkIUnit [0; 1] [(0, 1, true)]; mkIUnit [2] []]
-          [] [] 0 ex_opts.
+          [] [] 0 ex_opts [].
 Definition ox_s0 : state :=
   Eval vm_compute in match new_solution ox_inp with Some s => s | None => ex_dummy end.
 (* 0 and 1 into the same gap, in this order *)
@@ -818,7 +818,7 @@ Definition ox_mv_after : move := mkMove 1 0 [(2, 3)].
 
 Example ox_wf : wf_input ox_inp.
 Proof.
-  split; [|split].
+  split; [|split; [|split; [|exact (Forall_nil _)]]].
   - vm_compute. repeat (constructor; [simpl; lia|]). constructor.
   - intros x. vm_compute. lia.
   - intros u Hu. vm_compute in Hu. destruct Hu as [<-|[<-|[]]]; discriminate.
@@ -993,7 +993,7 @@ Proof. vm_compute. repeat split; auto. Qed.
 Definition ox_inp_bad : input :=
   mkInput [] [ox_stop; ox_stop; ox_stop] [dflt_vehicle]
           [mkIUnit [0; 1] [(3, 3, false)]; mkIUnit [2] []]
-          [] [] 0 ex_opts.
+          [] [] 0 ex_opts [].
 Definition ox_bad_s0 : state :=
   Eval vm_compute in match new_solution ox_inp_bad with Some s => s | None => ex_dummy end.
 
@@ -1004,7 +1004,7 @@ Proof.
   assert (Hu : 0 < nunits ox_inp_bad) by (vm_compute; lia).
   assert (Hv : 0 < nveh ox_inp_bad) by (vm_compute; lia).
   split; [|split; [vm_compute; reflexivity|split]].
-  - split; [|split].
+  - split; [|split; [|split; [|exact (Forall_nil _)]]].
     + vm_compute. repeat (constructor; [simpl; lia|]). constructor.
     + intros x. vm_compute. lia.
     + intros u Hin. vm_compute in Hin. destruct Hin as [<-|[<-|[]]]; discriminate.
